@@ -2898,7 +2898,7 @@ impl LpgStore {
             .next_node_id
             .fetch_update(Ordering::SeqCst, Ordering::SeqCst, |current| {
                 if id_val >= current {
-                    Some(id_val + 1)
+                    Some(id_val.saturating_add(1))
                 } else {
                     None
                 }
@@ -2947,7 +2947,7 @@ impl LpgStore {
             .next_node_id
             .fetch_update(Ordering::SeqCst, Ordering::SeqCst, |current| {
                 if id_val >= current {
-                    Some(id_val + 1)
+                    Some(id_val.saturating_add(1))
                 } else {
                     None
                 }
@@ -2980,7 +2980,7 @@ impl LpgStore {
             .next_edge_id
             .fetch_update(Ordering::SeqCst, Ordering::SeqCst, |current| {
                 if id_val >= current {
-                    Some(id_val + 1)
+                    Some(id_val.saturating_add(1))
                 } else {
                     None
                 }
@@ -3019,7 +3019,7 @@ impl LpgStore {
             .next_edge_id
             .fetch_update(Ordering::SeqCst, Ordering::SeqCst, |current| {
                 if id_val >= current {
-                    Some(id_val + 1)
+                    Some(id_val.saturating_add(1))
                 } else {
                     None
                 }
